@@ -156,6 +156,10 @@ fn main() {
             init();
             mon_miri::run("c01", &args, &report)
         }
+        "miri-c04" => {
+            init();
+            mon_miri::run_search(&args, &report)
+        }
         "miri-c16" => {
             init();
             mon_miri::run("c16", &args, &report)
